@@ -59,14 +59,26 @@ def parseTok (tok : String) : Option (Call × List Phase) :=
 def showRes : Res → String
   | .ok => "ok" | .err => "err" | .panic => "panic" | .hang => "hang"
 
+/-- `<cap>` or `<cap>/<cutDocs>`; `cap` = the literal `cap` (extracted capacity) or a number -/
+def capOf (t : String) : Option (Nat × Nat) :=
+  match t.splitOn "/" with
+  | [c] => (if c == "cap" then some codeCap else c.toNat?).map (fun c => (c, 0))
+  | [c, k] => do
+    let c ← (if c == "cap" then some codeCap else c.toNat?)
+    let k ← k.toNat?
+    pure (c, k)
+  | _ => none
+
+def cutOf (c : Nat × Nat) : Nat := c.2
+
 def handle : List String → String
   | ["cap"] => toString codeCap
   | ["run", cap, toks] =>
-    match (if cap == "cap" then some codeCap else cap.toNat?), (if toks == "-" then some [] else (toks.splitOn ",").mapM parseTok) with
+    match capOf cap, (if toks == "-" then some [] else (toks.splitOn ",").mapM parseTok) with
     | some cap, some cps =>
       let plans : List (List Phase) := cps.map (·.2)
       let F : Nat → Plan := fun i p => (plans.getD i []).contains p
-      let r := run codeSync2 cap F 0 init (cps.map (·.1))
+      let r := run codeSync2 { codeFixes with cutDocs := cutOf cap } cap.1 F 0 init (cps.map (·.1))
       (if r.2.isEmpty then "-" else ",".intercalate (r.2.map showRes)) ++ "|" ++
         showNatList (content r.1.metaSegs) ++ "|" ++ showBool (stale r.1) ++ "|" ++
         showNatList (content r.1.searcher)
